@@ -9,6 +9,8 @@ from ..core import call_attr, calls_in, dotted, kwarg, norm, slice_parts, text, 
 from . import c09
 
 EXPLANATION = [
+    'C07.fifo: every deque of the anchored modules that is filled with append / extend is emptied with popleft or by iteration (never pop()), and conversely: queued entries come out in the order they went in.',
+    'C07.unordered-pairing: no zip() / enumerate() pairs positions with a set (literal, comprehension, set() call or a name bound only to such): the order of a set is arbitrary.',
     'C07.byte-order: every field codec of bumble.l2cap (field metadata and struct formats) is little-endian: no single field of a signalling frame or header is byte-swapped.',
     'C07.stale-loopvar: no comprehension or generator expression in bumble.l2cap reads the variable of a `for` loop that has already finished (it would be the last item for every element): table registrations built from a list of channels key each channel by its own identifiers.',
     'C07.cid-alloc: a local channel identifier is allocated by scanning the very table the channel is then inserted into (keyed by own CIDs), whatever identifiers the peer chose (same rule as C09.cid-alloc).',
@@ -362,7 +364,19 @@ def byte_order_rule(ctx):
     g.byte_order(ctx, 'C07.byte-order', ['bumble.l2cap'])
 
 
+def unordered_pairing_rule(ctx):
+    from ..generic_rules import unordered_pairing
+    unordered_pairing(ctx, 'C07.unordered-pairing', ['bumble.l2cap'])
+
+
+def fifo_rule(ctx):
+    from ..generic_rules import fifo_discipline
+    fifo_discipline(ctx, 'C07.fifo', ['bumble.l2cap'])
+
+
 RULES = [
+    ('C07.fifo', fifo_rule),
+    ('C07.unordered-pairing', unordered_pairing_rule),
     ('C07.byte-order', byte_order_rule),
     ('C07.stale-loopvar', stale_loopvar_rule),
     ('C07.cid-alloc', cid_alloc),
